@@ -161,6 +161,8 @@ def observation(cfg, rng, hosts):
             e["applications"] = [{"application_name": a["type"]} for a in h["applications"]]
         if h.get("folders") and rng.random() < 0.8:
             e["folders"] = [{"folder_name": f["folder_name"], "files": [{"file_name": x["file_name"]} for x in f["files"]]} for f in h["folders"]]
+        if rng.random() < 0.3:          # explicit interface list, shorter or longer than num_nics
+            e["network_interfaces"] = [{"nic_num": k + 1} for k in range(rng.randint(0, 3))]
         hs.append(e)
     if rng.random() < 0.5:
         hs.append({"hostname": "ghost_host"})
@@ -177,6 +179,9 @@ def observation(cfg, rng, hosts):
     fs = [n for n in nodes if n["type"] == "firewall"]
     if rs:
         opts["routers"] = [{"hostname": r["hostname"]} for r in rs]
+        for e in opts["routers"]:
+            if rng.random() < 0.6:       # explicit port list, shorter or longer than num_ports
+                e["ports"] = [{"port_id": k + 1} for k in range(rng.randint(0, 5))]
     if fs:
         opts["firewalls"] = [{"hostname": f["hostname"], "ip_list": opts["ip_list"], "wildcard_list": ["0.0.0.255"],
                               "port_list": [22, 80], "protocol_list": ["tcp", "icmp"], "num_rules": rng.randint(2, 8)} for f in fs]
